@@ -40,6 +40,9 @@ type forExpander struct {
 
 	// values of symbols resolved for the FOR counts seen so far
 	resolved map[string][]token
+	// symbols through which the count of a nested block could not be
+	// evaluated, with the undefined name that was in the way ("" if none)
+	failingCounts map[string]string
 
 	// output fields
 	tokens chan token
@@ -528,7 +531,7 @@ func (f *forExpander) recordBodyEqus() {
 		if f.forCountLabel != "" {
 			subst[f.forCountLabel] = fmt.Sprintf("%d", i)
 		}
-		f.recordEqus(f.forContent, subst)
+		f.recordEqus(f.forContent, subst, 1)
 		if !hasNestedEqu {
 			// what the first copy defines, the other copies only repeat
 			break
@@ -536,9 +539,9 @@ func (f *forExpander) recordBodyEqus() {
 	}
 }
 
-// recordEqus walks the lines of a block body in which the count variables in
-// subst have the given values
-func (f *forExpander) recordEqus(body []token, subst map[string]string) {
+// recordEqus walks the lines of a block body, depth blocks deep, in which the
+// count variables in subst have the given values
+func (f *forExpander) recordEqus(body []token, subst map[string]string, depth int) {
 	substituted := func(toks []token) []token {
 		out := make([]token, 0, len(toks))
 		for _, tok := range toks {
@@ -596,7 +599,7 @@ func (f *forExpander) recordEqus(body []token, subst map[string]string) {
 		case "for":
 			// the lines up to the ROF of this block
 			innerStart := start
-			depth := 0
+			nesting := 0
 			innerEnd := -1
 			for pos := start; pos < len(body) && innerEnd < 0; {
 				lineEnd := pos
@@ -608,12 +611,12 @@ func (f *forExpander) recordEqus(body []token, subst map[string]string) {
 						continue
 					}
 					if tok.typ == tokText && strings.ToLower(tok.val) == "for" {
-						depth++
+						nesting++
 					} else if tok.typ == tokText && strings.ToLower(tok.val) == "rof" {
-						if depth == 0 {
+						if nesting == 0 {
 							innerEnd = pos
 						}
-						depth--
+						nesting--
 					}
 					break
 				}
@@ -636,12 +639,20 @@ func (f *forExpander) recordEqus(body []token, subst map[string]string) {
 					break
 				}
 			}
-			if !hasEqu {
+			if !hasEqu || depth >= maxForDepth {
+				// nothing to find, or nested deeper than is accepted anyway
 				continue
 			}
-			count, err := expandAndEvaluate(substituted(line[1:]), f.symbols, f.resolved)
+			countExpr := substituted(line[1:])
+			if f.countIsKnownToFail(countExpr) {
+				continue
+			}
+			count, err := expandAndEvaluate(countExpr, f.symbols, f.resolved)
 			if err != nil {
-				// not known yet; the pass that expands the block will tell
+				// not known yet, or never; the pass that expands the block
+				// will tell. Remember it, so that many blocks with such a
+				// count do not each walk through the same symbols again.
+				f.rememberFailingCount(countExpr, err)
 				continue
 			}
 			counter := ""
@@ -653,7 +664,7 @@ func (f *forExpander) recordEqus(body []token, subst map[string]string) {
 				if counter != "" {
 					subst[counter] = fmt.Sprintf("%d", i)
 				}
-				f.recordEqus(inner, subst)
+				f.recordEqus(inner, subst, depth+1)
 			}
 			if counter != "" {
 				if hadSaved {
@@ -663,6 +674,68 @@ func (f *forExpander) recordEqus(body []token, subst map[string]string) {
 				}
 			}
 		}
+	}
+}
+
+// countIsKnownToFail reports whether expr names a symbol through which an
+// earlier count could not be evaluated, and nothing has changed about that
+func (f *forExpander) countIsKnownToFail(expr []token) bool {
+	for _, tok := range expr {
+		if tok.typ != tokText {
+			continue
+		}
+		missing, ok := f.failingCounts[tok.val]
+		if !ok {
+			continue
+		}
+		if missing == "" {
+			// a cycle, a division by zero, a value that is too long: values
+			// never change, so it fails for good
+			return true
+		}
+		if _, defined := f.symbols[missing]; !defined {
+			return true
+		}
+		delete(f.failingCounts, tok.val)
+	}
+	return false
+}
+
+// rememberFailingCount records, for the names in expr, the undefined name
+// their values lead to ("" if there is none and the count fails for another
+// reason)
+func (f *forExpander) rememberFailingCount(expr []token, err error) {
+	if f.failingCounts == nil {
+		f.failingCounts = make(map[string]string)
+	}
+	seen := make(map[string]bool)
+	var missing func(toks []token) string
+	missing = func(toks []token) string {
+		for _, tok := range toks {
+			if tok.typ != tokText || seen[tok.val] {
+				continue
+			}
+			seen[tok.val] = true
+			value, ok := f.symbols[tok.val]
+			if !ok {
+				return tok.val
+			}
+			if name := missing(value); name != "" {
+				return name
+			}
+		}
+		return ""
+	}
+	for _, tok := range expr {
+		if tok.typ != tokText {
+			continue
+		}
+		if _, defined := f.symbols[tok.val]; !defined {
+			// an undefined name in the count itself is looked up in no time
+			continue
+		}
+		seen = make(map[string]bool)
+		f.failingCounts[tok.val] = missing([]token{tok})
 	}
 }
 
